@@ -6,7 +6,7 @@
       3. the post-filter removes a row iff one of the column's comparisons fails (per Go column type);
       4. the Epoch push-down never cuts a row that satisfies the Epoch comparisons;
       5. IsFalse only fires when no row can satisfy the conjunction. *)
-From Coq Require Import ZArith List Bool String Lia.
+From Coq Require Import ZArith List Bool String Lia Sorted.
 From Flocq Require Import IEEE754.BinarySingleNaN.
 Require Import MS.Base.GoInt MS.Base.Res MS.Base.FGen MS.Base.F32 MS.Base.F64.
 Require Import MS.Generated.Src_io MS.Generated.Src_sql MS.Model.Sql MS.Proofs.SqlNum_facts.
@@ -468,4 +468,505 @@ Proof.
   induction sc as [|[k t] sc IH]; simpl; [discriminate|]. destruct (String.eqb k n) eqn:E.
   - apply String.eqb_eq in E. intros _. left. exact E.
   - intros H. right. apply IH. exact H.
+Qed.
+
+(** ---------- what the boolean guard gives ---------- *)
+Record Dom (tfs : Z) (sc : schema) (rows : list row) (ps : list pred) : Prop := {
+  D_tf : 0 < tfs;
+  D_nd : NoDup (cols_of sc);
+  D_rows : forall r, In r rows -> 33 <= r_epoch r <= max_epoch_sec /\ r_epoch r mod tfs = 0 /\ cells_ok sc (r_vals r) = true;
+  D_preds : forall p, In p ps -> In (pred_col p) (cols_of sc) /\ pred_is_neq p = false;
+  D_short : forall c, short (lows c ps) /\ short (ups c ps) /\ short (eqs c ps);
+  D_val : forall p ty, In p ps -> col_type (pred_col p) sc = Some ty ->
+          filtered_type ty = true
+          /\ (forall l, In l (pred_lits p) -> lit_finite l = true /\
+                (((ty =? ET_INT32) || (ty =? ET_INT64)) = true -> lit_in_int_type ty l = true))
+          /\ (forall r v, In r rows -> nth_cell (pred_col p) sc (r_vals r) = Some v -> cell_is_nan v = false);
+  D_ep : forall p l, In p ps -> pred_col p = epoch_name -> In l (pred_lits p) -> epoch_lit_ok l = true;
+  D_sec : epoch_seconds_bad ps = false;
+  D_bar : epoch_incl_upper_on_bar rows ps = false;
+  D_f32 : f32_bounds_ordered sc ps = true
+}.
+
+Lemma existsb_false_in {A} (f : A -> bool) l x : existsb f l = false -> In x l -> f x = false.
+Proof.
+  intros H Hin. destruct (f x) eqn:E; [|reflexivity].
+  assert (existsb f l = true) by (apply existsb_exists; exists x; auto). congruence.
+Qed.
+
+Lemma short_of_len {A} (l : list A) : (1 <? Z.of_nat (List.length l)) = false -> short l.
+Proof. intros H. apply Z.ltb_ge in H. unfold short. lia. Qed.
+
+Lemma lists_empty_or_pred c ps :
+  (lows c ps = [] /\ ups c ps = [] /\ eqs c ps = []) \/ exists p, In p ps /\ pred_col p = c.
+Proof.
+  destruct (lows c ps) as [|x ?] eqn:E1.
+  - destruct (ups c ps) as [|y ?] eqn:E2.
+    + destruct (eqs c ps) as [|z ?] eqn:E3; [left; auto|].
+      right. destruct (eqs_origin c ps z) as (p & ? & ? & _); [rewrite E3; left; reflexivity|]. exists p; auto.
+    + right. destruct (ups_origin c ps y) as (p & ? & ? & _); [rewrite E2; left; reflexivity|]. exists p; auto.
+  - right. destruct (lows_origin c ps x) as (p & ? & ? & _); [rewrite E1; left; reflexivity|]. exists p; auto.
+Qed.
+
+Lemma guard_dom tfs sc rows ps : guard tfs sc rows ps = true -> Dom tfs sc rows ps.
+Proof.
+  unfold guard. rewrite !andb_true_iff, !negb_true_iff.
+  intros ((((((((Hst & Hq) & Hsec) & Hbar) & Hrep) & Hunf) & Hint) & Hnan) & Hf32).
+  unfold wf_store in Hst. rewrite !andb_true_iff in Hst. destruct Hst as (((Htf & Hnd) & Hnames) & Hrows).
+  apply Z.ltb_lt in Htf. apply nodup_names_spec in Hnd.
+  rewrite forallb_forall in Hnames, Hrows. unfold wf_query in Hq. rewrite forallb_forall in Hq.
+  assert (Hcols : NoDup (cols_of sc)).
+  { unfold cols_of. constructor; [|exact Hnd]. intros Hin. apply in_map_iff in Hin. destruct Hin as ([k t] & Hk & Hin).
+    simpl in Hk. subst k. specialize (Hnames _ Hin). simpl in Hnames. rewrite ?String.eqb_refl in Hnames. discriminate Hnames. }
+  assert (Hpc : forall p, In p ps -> In (pred_col p) (cols_of sc) /\ pred_is_neq p = false).
+  { intros p Hp. specialize (Hq p Hp). rewrite !andb_true_iff, negb_true_iff in Hq. destruct Hq as [Hn Hq]. split; [|exact Hn].
+    unfold cols_of. destruct (String.eqb (pred_col p) epoch_name) eqn:E.
+    - left. symmetry. apply String.eqb_eq. exact E.
+    - right. destruct (col_type (pred_col p) sc) eqn:Et; [|discriminate]. eapply col_type_in. eassumption. }
+  constructor; try assumption.
+  - intros r Hr. specialize (Hrows r Hr). rewrite !andb_true_iff in Hrows.
+    destruct Hrows as (((H1 & H2) & H3) & H4). apply Z.leb_le in H1, H2. apply Z.eqb_eq in H3. auto.
+  - intros c. destruct (lists_empty_or_pred c ps) as [(E1 & E2 & E3)|(p & Hp & <-)].
+    + rewrite E1, E2, E3. unfold short. simpl. lia.
+    + unfold repeated_bound in Hrep. pose proof (existsb_false_in _ _ p Hrep Hp) as E. cbv zeta in E.
+      apply orb_false_iff in E. destruct E as [E E3]. apply orb_false_iff in E. destruct E as [E1 E2].
+      repeat split; apply short_of_len; assumption.
+  - intros p ty Hp Hty. repeat split.
+    + unfold unfiltered_type in Hunf. pose proof (existsb_false_in _ _ p Hunf Hp) as E. cbv beta in E.
+      rewrite Hty in E. apply negb_false_iff in E. exact E.
+    + specialize (Hq p Hp). rewrite !andb_true_iff in Hq. destruct Hq as [_ Hq].
+      destruct (String.eqb (pred_col p) epoch_name) eqn:E.
+      * exfalso. apply String.eqb_eq in E. apply col_type_in in Hty. rewrite E in Hty.
+        apply in_map_iff in Hty. destruct Hty as ([k t] & Hk & Hin). simpl in Hk. subst k.
+        specialize (Hnames _ Hin). simpl in Hnames. rewrite ?String.eqb_refl in Hnames. discriminate Hnames.
+      * rewrite Hty in Hq. rewrite forallb_forall in Hq. apply Hq. exact H.
+    + intros Hi. unfold bad_int_literal in Hint. pose proof (existsb_false_in _ _ p Hint Hp) as E. cbv beta in E.
+      rewrite Hty, Hi in E. simpl in E. apply negb_false_iff in E. rewrite forallb_forall in E. apply E. exact H.
+    + intros r v Hr Hv. unfold nan_value in Hnan. pose proof (existsb_false_in _ _ p Hnan Hp) as E. cbv beta in E.
+      pose proof (existsb_false_in _ _ r E Hr) as E'. cbv beta in E'. rewrite Hv in E'. exact E'.
+  - intros p l Hp Hc Hl. specialize (Hq p Hp). rewrite !andb_true_iff in Hq. destruct Hq as [_ Hq].
+    rewrite Hc, String.eqb_refl in Hq. rewrite forallb_forall in Hq. apply Hq. exact Hl.
+Qed.
+
+(** ---------- the value columns of one row ---------- *)
+Lemma rm_cell_empty ty v : rm_cell ty sp_empty v = false.
+Proof. destruct v; cbn [rm_cell]; repeat match goal with |- context [if ?b then _ else _] => destruct b end; reflexivity. Qed.
+
+Lemma okc_ext K K' c ps : (forall l, K l = K' l) -> okc K c ps = okc K' c ps.
+Proof.
+  intros H. unfold okc, okL, okU, okE. f_equal; [f_equal|]; apply forallb_ext'; intros x; rewrite H; reflexivity.
+Qed.
+
+Lemma rm_row_suffix g sc vals (F : string -> bool) :
+  (forall n ty v, In ((n, ty), v) (combine sc vals) -> rm_cell ty (gsp n g) v = negb (F n)) ->
+  List.length sc = List.length vals ->
+  negb (rm_row g sc vals) = forallb F (map fst sc).
+Proof.
+  revert vals. induction sc as [|[n ty] sc IH]; intros [|v vals] H Hlen; try discriminate Hlen; [reflexivity|].
+  cbn [rm_row map fst forallb]. rewrite negb_orb. f_equal.
+  - replace (match g_get n g with Some s => rm_cell ty s v | None => false end) with (rm_cell ty (gsp n g) v).
+    + rewrite (H n ty v (or_introl eq_refl)). apply negb_involutive.
+    + unfold gsp. destruct (g_get n g); [reflexivity | apply rm_cell_empty].
+  - apply IH; [|simpl in Hlen; lia]. intros n' ty' v' Hin. apply H. right. exact Hin.
+Qed.
+
+Lemma epoch_not_value sc : NoDup (cols_of sc) -> forall n, In n (map fst sc) -> n <> epoch_name.
+Proof. intros H n Hin ->. unfold cols_of in H. inversion H. contradiction. Qed.
+
+Lemma value_part tfs sc rows ps r : Dom tfs sc rows ps -> In r rows ->
+  negb (rm_row (build_group ps) sc (r_vals r)) = forallb (fun c => okc (cmp_col sc r c) c ps) (map fst sc).
+Proof.
+  intros D Hr. destruct (D_rows _ _ _ _ D r Hr) as (_ & _ & Hcells).
+  assert (Hnd : NoDup (map fst sc)) by (pose proof (D_nd _ _ _ _ D) as H; unfold cols_of in H; inversion H; assumption).
+  apply rm_row_suffix; [|apply cells_ok_length; exact Hcells].
+  intros n ty v Hin.
+  destruct (lookup_in _ _ _ _ _ Hnd Hin) as (Hlk & Hnth & Hty).
+  assert (Hne : n <> epoch_name).
+  { apply (epoch_not_value sc (D_nd _ _ _ _ D)). apply in_combine_l in Hin. apply in_map_iff. exists (n, ty). auto. }
+  rewrite (okc_ext (cmp_col sc r n) (cmp_cell ty v)).
+  2:{ intros l. unfold cmp_col. apply String.eqb_neq in Hne. rewrite Hne, Hlk. reflexivity. }
+  destruct (D_short _ _ _ _ D n) as (S1 & S2 & S3).
+  rewrite (gsp_unique n ps S1 S2 S3).
+  destruct (lists_empty_or_pred n ps) as [(E1 & E2 & E3)|(p & Hp & Hpc)].
+  - rewrite E1, E2, E3. unfold okc. rewrite E1, E2, E3. apply rm_cell_empty.
+  - subst n. destruct (D_val _ _ _ _ D p ty Hp Hty) as (Hft & _ & Hnan).
+    unfold okc. apply rm_cell_spec; try assumption.
+    + eapply cells_ok_in; eassumption.
+    + eapply Hnan; eassumption.
+    + intros l Hl. change (In l (all_lits (pred_col p) ps)) in Hl.
+      destruct (all_lits_origin _ _ _ Hl) as (q & Hq & Hqc & Hlq).
+      rewrite <- Hqc in Hty. destruct (D_val _ _ _ _ D q ty Hq Hty) as (_ & HL & _). apply HL. exact Hlq.
+Qed.
+
+(** ---------- the Epoch column ---------- *)
+Notation conv := convertUnitToNanosec.
+
+Lemma conv_row e : 33 <= e <= max_epoch_sec -> conv e = e * nanosec.
+Proof.
+  intros H. unfold convertUnitToNanosec, isNanosec, max_epoch_sec, nanosec in *.
+  destruct (Z.gtb_spec e 32503680000); [lia|].
+  apply wrap_small. unfold in_ity, ity_min, ity_max. cbn [ity_signed ity_bits]. lia.
+Qed.
+
+Definition ep_good (l : lit) : Prop :=
+  epoch_lit_ok l = true /\ (isNanosec (as_i64 l) = true \/ 33 <= as_i64 l).
+
+Lemma conv_lit l : ep_good l ->
+  exists n, lit_epoch_ns l = Some n /\ conv (as_i64 l) = n /\ conv n = n /\ - 2 ^ 63 <= n < 2 ^ 63
+            /\ (isNanosec (as_i64 l) = true -> n = as_i64 l).
+Proof.
+  intros [Hok Hg]. destruct l as [z|x]; [|discriminate Hok]. cbn [epoch_lit_ok as_i64 lit_epoch_ns] in *.
+  apply andb_true_iff in Hok. destruct Hok as [H0 H1]. apply Z.leb_le in H0.
+  unfold convertUnitToNanosec. destruct (isNanosec z) eqn:E.
+  - exists z. apply Z.ltb_lt in H1. rewrite E. repeat split; try reflexivity; try lia.
+  - apply Z.leb_le in H1. destruct Hg as [Hg|Hg]; [discriminate|].
+    exists (z * nanosec). unfold isNanosec, max_epoch_sec, nanosec in *. rewrite Z.gtb_ltb in E. apply Z.ltb_ge in E.
+    assert (W : wrap I64 (z * 1000000000) = z * 1000000000).
+    { apply wrap_small. unfold in_ity, ity_min, ity_max. cbn [ity_signed ity_bits]. lia. }
+    rewrite W. repeat split; try reflexivity; try lia; try (intros; discriminate).
+    destruct (Z.gtb_spec (z * 1000000000) 32503680000); [reflexivity | lia].
+Qed.
+
+Lemma ep_loop_idem test l es : conv (conv l) = conv l ->
+  ep_loop test l es = map (fun e => test (conv e) (conv l)) es.
+Proof.
+  revert l. induction es as [|e es IH]; intros l H; [reflexivity|].
+  cbn [ep_loop map]. f_equal. rewrite IH by (rewrite H; exact H). rewrite H. reflexivity.
+Qed.
+
+Lemma ep_bitmap_rows s es :
+  (h_eq s = true -> conv (conv (as_i64 (lit0 (s_eq s)))) = conv (as_i64 (lit0 (s_eq s)))) ->
+  (h_min s = true -> conv (conv (as_i64 (lit0 (s_min s)))) = conv (as_i64 (lit0 (s_min s)))) ->
+  (h_max s = true -> conv (conv (as_i64 (lit0 (s_max s)))) = conv (as_i64 (lit0 (s_max s)))) ->
+  ep_bitmap s es =
+  map (fun e => rm_gen (fun l => conv e =? conv (as_i64 l)) (fun l => conv e <? conv (as_i64 l))
+                       (fun l => conv e <=? conv (as_i64 l)) (fun l => conv e >? conv (as_i64 l))
+                       (fun l => conv e >=? conv (as_i64 l)) s) es.
+Proof.
+  intros He Hmi Hma. unfold ep_bitmap, rm_gen. rewrite falses_map.
+  destruct (h_eq s); [rewrite (ep_loop_idem _ _ _ (He eq_refl)) | ];
+  (destruct (h_min s); [rewrite (ep_loop_idem _ _ _ (Hmi eq_refl)) | ]);
+  (destruct (h_max s); [rewrite (ep_loop_idem _ _ _ (Hma eq_refl)) | ]);
+  rewrite !bm_or_maps; apply map_ext; intros e; cbn [andb orb]; reflexivity.
+Qed.
+
+Lemma epoch_tests_ok (v n : Z) (K : lit -> option comparison) l :
+  conv (as_i64 l) = n -> K l = Some (v ?= n) ->
+  tests_ok K (fun l => v =? conv (as_i64 l)) (fun l => v <? conv (as_i64 l)) (fun l => v <=? conv (as_i64 l))
+             (fun l => v >? conv (as_i64 l)) (fun l => v >=? conv (as_i64 l)) l.
+Proof.
+  intros Hc HK. unfold tests_ok. rewrite HK, Hc.
+  split; [discriminate|]. rewrite Z.eqb_compare. unfold Z.ltb, Z.leb, Z.gtb, Z.geb.
+  destruct (v ?= n); repeat split; reflexivity.
+Qed.
+
+(** the guard makes every Epoch literal well-behaved under convertUnitToNanosec *)
+Lemma epoch_lits_good tfs sc rows ps : Dom tfs sc rows ps ->
+  (forall l, In l (all_lits epoch_name ps) -> ep_good l)
+  /\ (forall x, In x (ups epoch_name ps) -> isNanosec (as_i64 (fst x)) = true).
+Proof.
+  intros D. pose proof (D_sec _ _ _ _ D) as Hsec. unfold epoch_seconds_bad in Hsec.
+  apply orb_false_iff in Hsec. destruct Hsec as [Hu Hle].
+  assert (HU : forall x, In x (ups epoch_name ps) -> isNanosec (as_i64 (fst x)) = true).
+  { intros x Hx. pose proof (existsb_false_in _ _ x Hu Hx) as E. cbv beta in E. apply negb_false_iff in E. exact E. }
+  split; [|exact HU]. intros l Hl. split.
+  - destruct (all_lits_origin _ _ _ Hl) as (p & Hp & Hc & Hlp). eapply (D_ep _ _ _ _ D); eassumption.
+  - unfold all_lits in Hl. rewrite app_assoc in Hl. apply in_app_or in Hl. destruct Hl as [Hl|Hl].
+    + apply in_app_or in Hl. destruct Hl as [Hl|Hl].
+      * assert (Hl' : In l (map fst (lows epoch_name ps) ++ eqs epoch_name ps)) by (apply in_or_app; left; exact Hl).
+        pose proof (existsb_false_in _ _ l Hle Hl') as E. cbv beta in E.
+        destruct (isNanosec (as_i64 l)); [left; reflexivity|]. right. simpl in E. apply Z.ltb_ge in E. exact E.
+      * left. apply in_map_iff in Hl. destruct Hl as (x & <- & Hx). apply HU. exact Hx.
+    + assert (Hl' : In l (map fst (lows epoch_name ps) ++ eqs epoch_name ps)) by (apply in_or_app; right; exact Hl).
+      pose proof (existsb_false_in _ _ l Hle Hl') as E. cbv beta in E.
+      destruct (isNanosec (as_i64 l)); [left; reflexivity|]. right. simpl in E. apply Z.ltb_ge in E. exact E.
+Qed.
+
+Lemma ep_bitmap_empty es : ep_bitmap sp_empty es = falses (List.length es).
+Proof.
+  unfold ep_bitmap. cbn [sp_empty h_eq h_min h_max]. rewrite falses_map, !bm_or_maps. reflexivity.
+Qed.
+
+Lemma hd_in_all_lits c ps :
+  (forall l r, eqs c ps = l :: r -> In l (all_lits c ps))
+  /\ (forall x r, lows c ps = x :: r -> In (fst x) (all_lits c ps))
+  /\ (forall x r, ups c ps = x :: r -> In (fst x) (all_lits c ps)).
+Proof.
+  unfold all_lits. repeat split; intros a r E; rewrite E; rewrite !in_app_iff; cbn; auto.
+Qed.
+
+Lemma epoch_part tfs sc rows ps rows' : Dom tfs sc rows ps -> (forall r, In r rows' -> In r rows) ->
+  (match g_get epoch_name (build_group ps) with
+   | Some s => ep_bitmap s (map r_epoch rows')
+   | None => falses (List.length rows')
+   end) = map (fun r => negb (okc (cmp_epoch (r_epoch r)) epoch_name ps)) rows'.
+Proof.
+  intros D Hsub.
+  replace (match g_get epoch_name (build_group ps) with
+           | Some s => ep_bitmap s (map r_epoch rows') | None => falses (List.length rows') end)
+    with (ep_bitmap (gsp epoch_name (build_group ps)) (map r_epoch rows')).
+  2:{ unfold gsp. destruct (g_get epoch_name (build_group ps)); [reflexivity|]. rewrite ep_bitmap_empty, map_length. reflexivity. }
+  destruct (D_short _ _ _ _ D epoch_name) as (S1 & S2 & S3).
+  rewrite (gsp_unique epoch_name ps S1 S2 S3).
+  destruct (epoch_lits_good _ _ _ _ D) as [Hgood _].
+  destruct (hd_in_all_lits epoch_name ps) as (HE & HL & HU).
+  rewrite ep_bitmap_rows.
+  - rewrite map_map. apply map_ext_in. intros r Hr.
+    destruct (D_rows _ _ _ _ D r (Hsub r Hr)) as (He & _ & _). rewrite (conv_row _ He).
+    unfold okc. apply rm_gen_spec; try assumption.
+    intros l Hl. change (In l (all_lits epoch_name ps)) in Hl.
+    destruct (conv_lit l (Hgood l Hl)) as (n & Hn & Hc & _).
+    apply (epoch_tests_ok _ n); [exact Hc|]. unfold cmp_epoch. rewrite Hn. reflexivity.
+  - cbn [exp_sp h_eq s_eq]. destruct (eqs epoch_name ps) as [|l r] eqn:E; [discriminate|]. intros _. cbn [hd_error lit0].
+    destruct (conv_lit l (Hgood l (HE l r eq_refl))) as (n & _ & Hc & Hi & _). rewrite Hc. exact Hi.
+  - cbn [exp_sp h_min s_min]. destruct (lows epoch_name ps) as [|[l i] r] eqn:E; [discriminate|]. intros _. cbn [hd_lit lit0].
+    destruct (conv_lit l (Hgood l (HL (l, i) r eq_refl))) as (n & _ & Hc & Hi & _). rewrite Hc. exact Hi.
+  - cbn [exp_sp h_max s_max]. destruct (ups epoch_name ps) as [|[l i] r] eqn:E; [discriminate|]. intros _. cbn [hd_lit lit0].
+    destruct (conv_lit l (Hgood l (HU (l, i) r eq_refl))) as (n & _ & Hc & Hi & _). rewrite Hc. exact Hi.
+Qed.
+
+(** ---------- the push-down never cuts a row satisfying the Epoch comparisons ---------- *)
+Definition pushdown' (s : sp) : Res (option Z * option Z) :=
+  do st <- pd_bound (h_min s) (h_imin s) (s_min s) 1;
+  do en <- pd_bound (h_max s) (h_imax s) (s_max s) (-1);
+  Ok (st, en).
+
+Lemma pushdown_gsp g : pushdown g = pushdown' (gsp epoch_name g).
+Proof. unfold pushdown, gsp. destruct (g_get epoch_name g); reflexivity. Qed.
+
+Definition st_of (lo : list (lit * bool)) : option Z :=
+  match lo with [] => None | (l, i) :: _ => Some (wrap I64 (as_i64 l + (if i then 1 else 0))) end.
+Definition en_of (up : list (lit * bool)) : option Z :=
+  match up with [] => None | (l, i) :: _ => Some (wrap I64 (as_i64 l + (if i then -1 else 0))) end.
+
+Lemma pushdown_exp lo up eq : pushdown' (exp_sp lo up eq) = Ok (st_of lo, en_of up).
+Proof. destruct lo as [|[l i] ?], up as [|[l' i'] ?]; reflexivity. Qed.
+
+Lemma slot_mono tfs a b : 0 < tfs -> a <= b -> slot tfs a <= slot tfs b.
+Proof. intros H L. unfold slot, nanosec. apply Z.div_le_mono; lia. Qed.
+
+Lemma slot_succ_aligned tfs e : 0 < tfs -> e mod tfs = 0 -> slot tfs (e * nanosec + 1) = slot tfs (e * nanosec).
+Proof.
+  intros H Hm. unfold slot, nanosec.
+  assert (E : e = tfs * (e / tfs)) by (pose proof (Z.div_mod e tfs); lia).
+  set (k := e / tfs) in *. rewrite E.
+  replace (tfs * k * 1000000000 + 1) with (k * (tfs * 1000000000) + 1) by ring.
+  replace (tfs * k * 1000000000) with (k * (tfs * 1000000000)) by ring.
+  rewrite Z.div_add_l by lia. rewrite Z.div_mul by lia. rewrite Z.div_small by lia. lia.
+Qed.
+
+Lemma wrap64 z : - 2 ^ 63 <= z < 2 ^ 63 -> wrap I64 z = z.
+Proof. intros H. apply wrap_small. unfold in_ity, ity_min, ity_max. cbn [ity_signed ity_bits]. lia. Qed.
+
+Lemma sem_cmp_Z o a b : sem_op o (Some (a ?= b)) = true ->
+  match o with CEq => a = b | CNeq => a <> b | CLt => a < b | CLte => a <= b | CGt => a > b | CGte => a >= b end.
+Proof. destruct o; destruct (Z.compare_spec a b) as [E|E|E]; simpl; intros H0; try discriminate H0; lia. Qed.
+
+Lemma scan_incl tfs sc rows ps r : Dom tfs sc rows ps -> In r rows ->
+  okc (cmp_epoch (r_epoch r)) epoch_name ps = true ->
+  in_scan tfs (st_of (lows epoch_name ps)) (en_of (ups epoch_name ps)) r = true.
+Proof.
+  intros D Hr Hok. unfold okc in Hok. rewrite !andb_true_iff in Hok. destruct Hok as [[HL HU] _].
+  destruct (D_rows _ _ _ _ D r Hr) as (He & Hal & _). pose proof (D_tf _ _ _ _ D) as Htf.
+  destruct (epoch_lits_good _ _ _ _ D) as [Hgood Hups].
+  destruct (hd_in_all_lits epoch_name ps) as (_ & HLin & HUin).
+  unfold in_scan. apply andb_true_iff. split.
+  - destruct (lows epoch_name ps) as [|[l i] rest] eqn:E; [reflexivity|]. cbn [st_of]. apply Z.leb_le.
+    cbn [okL forallb fst snd] in HL. apply andb_true_iff in HL. destruct HL as [HL _].
+    destruct (conv_lit l (Hgood l (HLin (l, i) rest eq_refl))) as (n & Hn & Hc & _ & Hrange & Hns).
+    destruct (Hgood l (HLin (l, i) rest eq_refl)) as [Hok Hform].
+    unfold cmp_epoch in HL. rewrite Hn in HL.
+    destruct l as [z|x]; [|discriminate Hok]. cbn [as_i64] in *. cbn [epoch_lit_ok] in Hok.
+    apply andb_true_iff in Hok. destruct Hok as [H0 H1]. apply Z.leb_le in H0.
+    destruct (isNanosec z) eqn:EN.
+    + specialize (Hns eq_refl). subst n. apply Z.ltb_lt in H1. rewrite wrap64 by (destruct i; lia).
+      destruct i; apply sem_cmp_Z in HL.
+      * destruct (Z.eq_dec (r_epoch r * nanosec) z) as [<-|Hne].
+        -- rewrite slot_succ_aligned by assumption. lia.
+        -- apply slot_mono; [assumption | lia].
+      * apply slot_mono; [assumption | lia].
+    + apply Z.leb_le in H1. unfold max_epoch_sec in *. rewrite wrap64 by (destruct i; lia).
+      apply slot_mono; [assumption|]. unfold nanosec. destruct i; lia.
+  - destruct (ups epoch_name ps) as [|[l i] rest] eqn:E; [reflexivity|]. cbn [en_of]. apply Z.leb_le.
+    cbn [okU forallb fst snd] in HU. apply andb_true_iff in HU. destruct HU as [HU _].
+    destruct (conv_lit l (Hgood l (HUin (l, i) rest eq_refl))) as (n & Hn & Hc & _ & Hrange & Hns).
+    assert (Hin : In (l, i) ((l, i) :: rest)) by (left; reflexivity).
+    pose proof (Hups _ Hin) as HN. cbn [fst] in HN. specialize (Hns HN). subst n.
+    unfold cmp_epoch in HU. rewrite Hn in HU.
+    assert (Hz : 32503680000 < as_i64 l) by (unfold isNanosec in HN; apply Z.gtb_lt in HN; lia).
+    rewrite wrap64 by (destruct i; lia). apply slot_mono; [assumption|].
+    destruct i; apply sem_cmp_Z in HU; [|lia].
+    pose proof (D_bar _ _ _ _ D) as Hbar. unfold epoch_incl_upper_on_bar in Hbar. rewrite E in Hbar.
+    pose proof (existsb_false_in _ _ _ Hbar Hin) as B. cbn [fst snd andb] in B.
+    pose proof (existsb_false_in _ _ _ B Hr) as B'. cbv beta in B'. apply Z.eqb_neq in B'. lia.
+Qed.
+
+(** ---------- IsFalse only fires on an unsatisfiable conjunction ---------- *)
+Section FloatChain.
+Variable prec emax : Z.
+Context (prec_gt_0_ : FLX.Prec_gt_0 prec) (prec_lt_emax_ : Prec_lt_emax prec emax).
+Notation fl := (binary_float prec emax).
+
+Lemma float_chain (x A B : fl) (i j : bool) :
+  is_nan x = false -> is_nan A = false -> is_nan B = false ->
+  Bltb B A = true ->
+  sem_op (if i then CGte else CGt) (Bcompare x A) = true ->
+  sem_op (if j then CLte else CLt) (Bcompare x B) = true -> False.
+Proof.
+  intros Hx HA HB Hlt H1 H2.
+  rewrite (fkey_compare prec emax _ _ x A Hx HA) in H1. rewrite (fkey_compare prec emax _ _ x B Hx HB) in H2.
+  change (Bltb B A) with (f_lt prec emax B A) in Hlt. rewrite (f_lt_key prec emax _ _ B A HB HA) in Hlt.
+  apply Z.ltb_lt in Hlt. apply sem_cmp_Z in H1. apply sem_cmp_Z in H2. destruct i, j; lia.
+Qed.
+End FloatChain.
+
+Lemma forallb_false_in {A} (f : A -> bool) l x : In x l -> f x = false -> forallb f l = false.
+Proof.
+  intros Hin Hf. destruct (forallb f l) eqn:E; [|reflexivity]. rewrite forallb_forall in E. rewrite (E x Hin) in Hf. discriminate.
+Qed.
+
+Lemma in_names_combine (sc : schema) (vals : list cell) c :
+  List.length sc = List.length vals -> In c (map fst sc) -> exists ty v, In ((c, ty), v) (combine sc vals).
+Proof.
+  revert vals. induction sc as [|[k t] sc IH]; intros [|v vals] Hlen Hin; try destruct Hin; try discriminate Hlen.
+  - simpl in H. subst k. exists t, v. left. reflexivity.
+  - destruct (IH vals) as (ty & v' & Hc); [simpl in Hlen; lia | exact H|]. exists ty, v'. right. exact Hc.
+Qed.
+
+Lemma lit_int_bounds ty l : lit_in_int_type ty l = true -> exists z, l = LInt z /\ Z.abs z <= 2 ^ 63.
+Proof.
+  destruct l as [z|x]; [|discriminate]. cbn [lit_in_int_type]. intros H. exists z. split; [reflexivity|].
+  destruct (ty =? ET_INT32); apply andb_true_iff in H; destruct H as [H1 H2]; apply Z.leb_le in H1, H2; lia.
+Qed.
+
+Lemma is_false_sound tfs sc rows ps c r : Dom tfs sc rows ps -> In r rows ->
+  is_false (gsp c (build_group ps)) = true -> forallb (sem_pred sc r) ps = false.
+Proof.
+  intros D Hr Hf.
+  destruct (D_short _ _ _ _ D c) as (S1 & S2 & S3). rewrite (gsp_unique c ps S1 S2 S3) in Hf.
+  unfold is_false in Hf. cbn [exp_sp s_min s_max] in Hf.
+  destruct (lows c ps) as [|[a i] lrest] eqn:EL; [discriminate Hf|].
+  destruct (ups c ps) as [|[b j] urest] eqn:EU; [discriminate Hf|]. cbn [hd_lit] in Hf.
+  assert (lrest = []) by (destruct lrest; [reflexivity | unfold short in S1; simpl in S1; lia]).
+  assert (urest = []) by (destruct urest; [reflexivity | unfold short in S2; simpl in S2; lia]). subst lrest urest.
+  change (generic_cmp a b CGt) with (f64_lt (as_f64 b) (as_f64 a)) in Hf.
+  assert (HaL : In (a, i) (lows c ps)) by (rewrite EL; left; reflexivity).
+  assert (HbU : In (b, j) (ups c ps)) by (rewrite EU; left; reflexivity).
+  destruct (lows_origin _ _ _ HaL) as (pa & Hpa & Hca & Hla). destruct (ups_origin _ _ _ HbU) as (pb & Hpb & Hcb & Hlb).
+  cbn [fst] in Hla, Hlb.
+  destruct (D_preds _ _ _ _ D pa Hpa) as [Hcin _]. rewrite Hca in Hcin.
+  rewrite (sem_by_columns sc r ps (D_nd _ _ _ _ D) (D_preds _ _ _ _ D)).
+  apply (forallb_false_in _ _ c Hcin). unfold okc. rewrite EL, EU. cbn [okL okU forallb fst snd]. rewrite !andb_true_r.
+  destruct (sem_op (if i then CGte else CGt) (cmp_col sc r c a)) eqn:H1; [|reflexivity].
+  destruct (sem_op (if j then CLte else CLt) (cmp_col sc r c b)) eqn:H2; [|reflexivity]. exfalso. clear S1 S2.
+  destruct (D_rows _ _ _ _ D r Hr) as (He & _ & Hcells).
+  unfold cols_of in Hcin. destruct Hcin as [<-|Hcin].
+  - (* Epoch *)
+    unfold cmp_col in H1, H2. rewrite String.eqb_refl in H1, H2.
+    destruct (epoch_lits_good _ _ _ _ D) as [Hgood Hups].
+    destruct (hd_in_all_lits epoch_name ps) as (_ & HLin & HUin).
+    pose proof (Hgood a (HLin _ _ EL)) as Ga. pose proof (Hgood b (HUin _ _ EU)) as Gb.
+    pose proof (Hups _ HbU) as Nb. cbn [fst] in Nb.
+    destruct (conv_lit a Ga) as (na & Hna & _ & _ & _ & Hnsa). destruct (conv_lit b Gb) as (nb & Hnb & _ & _ & _ & Hnsb).
+    specialize (Hnsb Nb). subst nb.
+    destruct Ga as [Oka _]. destruct Gb as [Okb _].
+    destruct a as [za|?]; [|discriminate Oka]. destruct b as [zb|?]; [|discriminate Okb].
+    cbn [as_i64 as_f64 epoch_lit_ok] in *.
+    apply andb_true_iff in Oka. destruct Oka as [A0 A1]. apply andb_true_iff in Okb. destruct Okb as [B0 B1].
+    apply Z.leb_le in A0, B0. rewrite Nb in B1. apply Z.ltb_lt in B1.
+    assert (Habs : Z.abs za <= 2 ^ 63).
+    { destruct (isNanosec za); [apply Z.ltb_lt in A1 | apply Z.leb_le in A1; unfold max_epoch_sec in A1]; lia. }
+    assert (Hlt : zb < za) by (apply f64_of_Z_lt_mono; [exact Habs | lia | exact Hf]).
+    assert (Na : isNanosec za = true).
+    { unfold isNanosec in *. apply Z.gtb_lt in Nb. apply Z.gtb_lt. lia. }
+    specialize (Hnsa Na). subst na.
+    unfold cmp_epoch in H1, H2. rewrite Hna in H1. rewrite Hnb in H2.
+    apply sem_cmp_Z in H1. apply sem_cmp_Z in H2. destruct i, j; lia.
+  - (* a value column *)
+    assert (Hnd : NoDup (map fst sc)) by (pose proof (D_nd _ _ _ _ D) as H; unfold cols_of in H; inversion H; assumption).
+    destruct (in_names_combine sc (r_vals r) c (cells_ok_length _ _ Hcells) Hcin) as (ty & v & Hin).
+    destruct (lookup_in _ _ _ _ _ Hnd Hin) as (Hlk & Hnth & Hty).
+    assert (Hne : c <> epoch_name) by (apply (epoch_not_value sc (D_nd _ _ _ _ D)); exact Hcin).
+    unfold cmp_col in H1, H2. apply String.eqb_neq in Hne. rewrite Hne, Hlk in H1, H2.
+    rewrite <- Hca in Hty. destruct (D_val _ _ _ _ D pa ty Hpa Hty) as (Hft & HLa & Hnan).
+    rewrite Hca, <- Hcb in Hty. destruct (D_val _ _ _ _ D pb ty Hpb Hty) as (_ & HLb & _).
+    destruct (HLa a Hla) as [Fa Ia]. destruct (HLb b Hlb) as [Fb Ib].
+    rewrite Hca in Hnan. specialize (Hnan r v Hr Hnth).
+    pose proof (cells_ok_in _ _ _ _ _ Hcells Hin) as Hcell.
+    destruct v as [z|x|x]; cbn [cell_ok cell_is_nan cmp_cell] in *.
+    + (* integer cell: the column is int32/int64, the literals are integers *)
+      assert (Hint : ((ty =? ET_INT32) || (ty =? ET_INT64)) = true).
+      { unfold filtered_type in Hft. unfold int_type_range in Hcell.
+        destruct (ty =? ET_INT32); [reflexivity|]. destruct (ty =? ET_INT64); [reflexivity|].
+        destruct (ty =? ET_FLOAT32) eqn:F32; [apply Z.eqb_eq in F32; subst ty; discriminate Hcell|].
+        destruct (ty =? ET_FLOAT64) eqn:F64; [apply Z.eqb_eq in F64; subst ty; discriminate Hcell|]. discriminate Hft. }
+      destruct (lit_int_bounds ty a (Ia Hint)) as (za & -> & Ba). destruct (lit_int_bounds ty b (Ib Hint)) as (zb & -> & Bb).
+      cbn [as_f64] in Hf. assert (Hlt : zb < za) by (apply f64_of_Z_lt_mono; assumption).
+      apply sem_cmp_Z in H1. apply sem_cmp_Z in H2. destruct i, j; lia.
+    + (* float32 *)
+      apply Z.eqb_eq in Hcell. subst ty.
+      pose proof (D_f32 _ _ _ _ D) as H32. unfold f32_bounds_ordered in H32. rewrite forallb_forall in H32.
+      specialize (H32 pa Hpa). cbv zeta in H32. rewrite Hca in H32. rewrite Hcb in Hty. rewrite Hty in H32.
+      change (ET_FLOAT32 =? ET_FLOAT32) with true in H32. cbv iota in H32.
+      rewrite forallb_forall in H32. specialize (H32 (a, i) HaL). rewrite forallb_forall in H32. specialize (H32 (b, j) HbU).
+      cbn [fst] in H32. change (generic_cmp a b CGt) with (f64_lt (as_f64 b) (as_f64 a)) in H32. rewrite Hf in H32.
+      cbn [implb] in H32.
+      eapply (float_chain 24 128 p32_gt_0 p32_lt_emax x (f32_of_lit a) (f32_of_lit b) i j); try eassumption.
+      * apply f32_of_lit_not_nan; exact Fa.
+      * apply f32_of_lit_not_nan; exact Fb.
+    + (* float64 *)
+      eapply (float_chain 53 1024 p64_gt_0 p64_lt_emax x (as_f64 a) (as_f64 b) i j); try eassumption.
+      * apply as_f64_not_nan; exact Fa.
+      * apply as_f64_not_nan; exact Fb.
+Qed.
+
+(** ================= the guarded theorem ================= *)
+Theorem materialize_spec tfs sc rows ps :
+  guard tfs sc rows ps = true -> materialize tfs sc rows ps = Ok (spec_select sc rows ps).
+Proof.
+  intros G. pose proof (guard_dom _ _ _ _ G) as D. unfold materialize, spec_select.
+  destruct (existsb (fun ks => is_false (snd ks)) (build_group ps)) eqn:EF.
+  - destruct (existsb_is_false ps EF) as [c Hc]. f_equal. symmetry. apply filter_none.
+    intros r Hr. eapply is_false_sound; eassumption.
+  - rewrite pushdown_gsp.
+    destruct (D_short _ _ _ _ D epoch_name) as (S1 & S2 & S3).
+    rewrite (gsp_unique epoch_name ps S1 S2 S3), pushdown_exp. cbn [bindR fst snd].
+    set (st := st_of (lows epoch_name ps)). set (en := en_of (ups epoch_name ps)).
+    assert (Hsub : forall r, In r (scan tfs st en rows) -> In r rows) by (intros r Hr; apply filter_In in Hr; apply Hr).
+    rewrite (epoch_part tfs sc rows ps (scan tfs st en rows) D Hsub).
+    rewrite restrict_maps.
+    replace (match scan tfs st en rows with
+             | [] => Ok []
+             | _ :: _ => Ok (filter (fun r => negb (negb (okc (cmp_epoch (r_epoch r)) epoch_name ps)
+                                                  || rm_row (build_group ps) sc (r_vals r))) (scan tfs st en rows))
+             end)
+      with (Ok (filter (fun r => negb (negb (okc (cmp_epoch (r_epoch r)) epoch_name ps)
+                                       || rm_row (build_group ps) sc (r_vals r))) (scan tfs st en rows)))
+      by (destruct (scan tfs st en rows); reflexivity).
+    f_equal. unfold scan. rewrite filter_filter. apply filter_ext_in'. intros r Hr.
+    rewrite (sem_by_columns sc r ps (D_nd _ _ _ _ D) (D_preds _ _ _ _ D)).
+    unfold cols_of. cbn [forallb].
+    replace (okc (cmp_col sc r epoch_name) epoch_name ps) with (okc (cmp_epoch (r_epoch r)) epoch_name ps)
+      by (apply okc_ext; intros l; unfold cmp_col; rewrite String.eqb_refl; reflexivity).
+    rewrite <- (value_part tfs sc rows ps r D Hr).
+    rewrite negb_orb, negb_involutive. unfold st, en.
+    destruct (okc (cmp_epoch (r_epoch r)) epoch_name ps) eqn:E.
+    + rewrite (scan_incl tfs sc rows ps r D Hr E). reflexivity.
+    + cbn [andb]. apply andb_false_r.
+Qed.
+
+(** time order is preserved: the result is a sub-list of the stored rows *)
+Lemma filter_sorted {A} (R : A -> A -> Prop) (f : A -> bool) l : StronglySorted R l -> StronglySorted R (filter f l).
+Proof.
+  induction 1 as [|x l Hs IH Hall]; simpl; [constructor|]. destruct (f x); [|exact IH].
+  constructor; [exact IH|]. rewrite Forall_forall in *. intros y Hy. apply filter_In in Hy. apply Hall. apply Hy.
+Qed.
+
+Theorem materialize_time_order tfs sc rows ps out :
+  guard tfs sc rows ps = true ->
+  StronglySorted (fun a b => r_epoch a < r_epoch b) rows ->
+  materialize tfs sc rows ps = Ok out ->
+  StronglySorted (fun a b => r_epoch a < r_epoch b) out.
+Proof.
+  intros G Hs H. rewrite (materialize_spec _ _ _ _ G) in H. inversion H; subst. apply filter_sorted. exact Hs.
 Qed.
